@@ -136,6 +136,8 @@ LAZY_MAKERS = ["3ɾ", "2ʀ", "4ɾ", "⟨1|2|3⟩ ƛ › ;", "3ɾ ƛ d ;", "3ɾ '
                "λ › ;", "⟨ λ › ; | 2 ⟩", "λ2| + ;", "⟨ 3ɾ | 2ʀ ⟩", "3ɾ ƛ ɾ ;",
                # lazily evaluated higher-order results: the function runs when (and where) the list is forced
                "3ɾ ɖ+", "4ɾ ɖ*", "⟨1|2|3⟩ ɖ-", "3ɾ ⁽› Z", "3ɾ ⁽₂ F", "3ɾ λ › ; M", "3ɾ ⁽› ẇ", "3ɾ ⁽d Ẇ", "⟨2|1|3⟩ ⁽N ṡ",
+               "3ɾ ƛ › ; ∑", "3ɾ ƛ d ; G", "3ɾ ƛ › ; s", "3ɾ ƛ › ; Ṙ", "3ɾ ƛ › ; L", "3ɾ ƛ › ; f", "3ɾ ƛ › ; U", "3ɾ ƛ › ; Π", "3ɾ ƛ › ; g",
+               "3ɾ ƛ › ; a", "3ɾ ƛ › ; A", "3ɾ ƛ › ; ∆M" if False else "3ɾ ƛ › ; t", "3ɾ ƛ › ; Ṡ", "3ɾ ' ₂ ; ∑", "3ɾ ⁽› Z ∑",
                "3ɾ λ2| + ; ɖ" if False else "3ɾ ɖ‹", "⟨1|1⟩ ⁽+ Ḟ 4 Ẏ", "3ɾ ⁽› ÞZ" if False else "3ɾ v›"]
 # terminating recursion: the lambda calls itself (x) until its argument reaches 0
 RECURSIONS = ["60 λ ‹ : [ x ] ; †", "300 λ ‹ : [ x ] ; †", "450 λ ‹ : [ x ] ; †", "450 λ ‹ : [ x ] ; †", "3 λ : [ ‹ x ] ; †", "2 λ : [ ‹ x | 7 ] ; †", "⟨2|1⟩ ƛ : [ ‹ x ] ;", "2 λ : [ ‹ x X ] 5 ; †", "3 λ : 0 > [ ‹ v x ] ; †",
